@@ -105,7 +105,8 @@ pub fn keyword_variants<'a>(tree: &'a SyntaxTree, text: &'a str) -> Vec<(String,
         let mut ev = n.clone().into_iter().event();
         let _ = ev.next();
         let kw = match ev.next() {
-            Some(NodeEvent::Enter(RefNode::Keyword(k))) => k,
+            Some(NodeEvent::Enter(RefNode::Keyword(k))) => &k.nodes.0,
+            Some(NodeEvent::Enter(RefNode::Symbol(k))) => &k.nodes.0,
             _ => continue,
         };
         let mut depth = 1usize;
@@ -129,10 +130,10 @@ pub fn keyword_variants<'a>(tree: &'a SyntaxTree, text: &'a str) -> Vec<(String,
         // "Kind(Variant(Keyword" : an enum variant wrapping just the keyword
         let mut parts = dbg.splitn(3, '(');
         let (_kind, variant, rest) = (parts.next().unwrap_or(""), parts.next().unwrap_or(""), parts.next().unwrap_or(""));
-        if !rest.starts_with("Keyword") || variant.is_empty() || !variant.chars().all(|c| c.is_ascii_alphanumeric()) {
+        if !(rest.starts_with("Keyword") || rest.starts_with("Symbol")) || variant.is_empty() || !variant.chars().all(|c| c.is_ascii_alphanumeric()) {
             continue;
         }
-        let l = &kw.nodes.0;
+        let l = kw;
         out.push((kind(&n), variant.to_string(), &text[l.offset..l.offset + l.len], l.offset));
     }
     out
